@@ -19,7 +19,7 @@ func init() {
 			"R1 on the device-read path every return that hands a frame to the caller is preceded by a write of b[terminator(+1) : readStart+count] into the leftover buffer (or the tail is provably empty), the decoded slice starts at 0 and ends at the terminator, and the byte tested as terminator lies below readStart+count; " +
 			"R2 before the first device read the leftover bytes are either known absent, or moved into b[0:] exactly once by leftover.Read (which drains them) and the device read starts exactly behind them; bytes handed to a bytes.NewBuffer object that is never read, or copied without being removed, are lost / seen twice; " +
 			"R3 a frame served from the leftover buffer takes out of it exactly the prefix ending at the terminator it found (tested below the length of the leftover bytes), into b[0:], and decodes no more than it took; " +
-			"R4 the read loop calls the device again only with b[previous start + previous count:] and only after that position was established to be < len(b); " +
+			"R4 the read loop calls the device again only with b[previous start + previous count:] and only after that position was established to be < len(b); after a device read without error it gives up (returns nothing) only when the position reached len(b) or exceeds a configuration field of the receiver; " +
 			"R5 what the writer hands to the device is zero bytes followed by Encode(<whole payload parameter>) on every non-error path. " +
 			"Index arithmetic is compared as linear forms over the current values of local variables; facts are dropped when a variable is assigned.",
 		Assumptions: []string{
@@ -1633,11 +1633,15 @@ func (fl *c16Flow) onGiveUp(r *ast.ReturnStmt, s kit.S, key string) {
 	end := fl.substEq(pL.Add(kit.Affine{Terms: map[string]int64{"v" + cTok: 1}}), s)
 	lenTerm := "len" + kit.VarToken(rd.buf)
 	for _, b := range fl.bounds(s) {
-		if b.NonZero || b.Upper {
+		if b.NonZero {
 			continue
 		}
-		// D >= M with D = end - <len(b) | receiver field> + const
+		// D >= M with D = end - <len(b) | receiver field> + const, or the
+		// mirrored D <= M with D = <len(b) | receiver field> - end + const
 		rest := b.D.Sub(end)
+		if b.Upper {
+			rest = b.D.Neg().Sub(end)
+		}
 		if len(rest.Terms) != 1 {
 			continue
 		}
@@ -2002,7 +2006,7 @@ func runC16(c *kit.Ctx) {
 	r1 := c.Rule("R1", "tail behind the terminator saved before a frame is returned", 1)
 	r2 := c.Rule("R2", "leftover moved into the caller's buffer and drained before the device read", 1)
 	r3 := c.Rule("R3", "frame from leftover consumes exactly the prefix it decodes", 1)
-	r4 := c.Rule("R4", "bounded accumulation: no re-read with a full buffer", 1)
+	r4 := c.Rule("R4", "bounded accumulation: reads continue behind the data, stop only when full", 2)
 	r5 := c.Rule("R5", "writer hands zeros ‖ Encode(payload) to the device", 1)
 	rules := map[string]*kit.Rule{"R1": r1, "R2": r2, "R3": r3, "R4": r4}
 
